@@ -144,6 +144,15 @@ func (e *Engine) libModel(fr *frame, ins ssa.Instruction, name string, fn *ssa.F
 	case "(*os.File).Close":
 		use()
 		return nilErr, reach, true
+	case "bytes.IndexByte":
+		// IndexByte(b, c): -1, or the index of an occurrence of c in b (the first one; not needed here)
+		use()
+		b := args[0].(SliceVal)
+		r := e.sc.declare("indexbyte", SI64)
+		c := e.comp(bytesT, []pathElem{{field: -1}}, "", SI8)
+		at := sel(e.sc.selIdx(e.heapGet(heap, c), b.Arr), app("bvadd", b.Off, r))
+		e.sc.assume(or(eq(r, bvLit(^uint64(0), 64)), and(app("bvsle", bvLit(0, 64), r), app("bvslt", r, b.Len), eq(at, e.scalar(args[1]).T))))
+		return Sc{r, SI64}, reach, true
 	case "github.com/lunixbochs/struc.PackWithOptions", "github.com/lunixbochs/struc.Pack":
 		// struc.Pack*(w io.Writer, data interface{}[, options]): on success exactly the packed size of the
 		// struct (sum of its fixed-size fields) is written to w; the bytes themselves are not modelled
